@@ -63,6 +63,118 @@ Example prog_example :
     map print_frac env = ["1/4+1/16"; "1/32"; "1/4+1/16+1/32"; "1/8/3"; "1/4+1/16+1/8/3"; "1/4+1/16+1/4+1/16"].
 Proof. eexists. split; vm_compute; reflexivity. Qed.
 
+(* ------------------------------------------------------------------ programs within the bound keep
+   "numeric value = sum of the printed components" for every live object *)
+
+Lemma fcomps_mk_frac n d td cs : fcomps (mk_frac n d td cs) = cs.
+Proof. unfold mk_frac. destruct (bound_pair n d). reflexivity. Qed.
+
+Lemma parse_simple_plain t f : parse_simple t = Some f -> fcomps f = None.
+Proof.
+  unfold parse_simple. destruct (map_opt parse_N (split_on "/" t)) as [[|a [|b [|c [|? ?]]]]|]; try discriminate;
+    intros H; injection H as <-; apply fcomps_mk_frac.
+Qed.
+
+Lemma map_opt_Forall {A B} (f : A -> option B) (P : B -> Prop) :
+  (forall x y, f x = Some y -> P y) -> forall l ys, map_opt f l = Some ys -> Forall P ys.
+Proof.
+  intros HP. induction l as [|x l IH]; intros ys H; simpl in H.
+  - injection H as <-. constructor.
+  - destruct (f x) as [y|] eqn:E; [|discriminate]. destruct (map_opt f l) as [ys'|]; [|discriminate].
+    injection H as <-. constructor; [eapply HP; eauto | apply IH; reflexivity].
+Qed.
+
+Lemma fold_inv ps : forall acc, frac_inv acc -> Forall frac_inv ps -> fold_within acc ps ->
+  frac_inv (fold_left frac_add ps acc).
+Proof.
+  induction ps as [|p ps IH]; intros acc Ha Hps Hw; simpl; auto.
+  inversion Hps; subst. destruct Hw as [Hw1 Hw2].
+  apply IH; auto. apply frac_inv_add_lemma; auto.
+Qed.
+
+Definition step_within (env : list frac) (s : fstep) : Prop :=
+  match s with
+  | SParse t =>
+      forall ps, parse_simple t = None -> map_opt parse_simple (split_on "+" t) = Some ps ->
+                 fold_within frac_zero ps
+  | SNew _ _ _ | SNop => True
+  | SAdd i j => forall f g, nth_error env i = Some f -> nth_error env j = Some g -> add_within f g
+  | SAddInt i k | SRAddInt k i =>
+      forall f, nth_error env i = Some f -> add_within f (mk_frac k 1 None None)
+  | SSum l =>
+      forall x r, map_opt (nth_error env) l = Some (x :: r) ->
+                  add_within x frac_zero /\ fold_within (frac_add x frac_zero) r
+  end.
+
+Fixpoint prog_within (env : list frac) (prog : list fstep) : Prop :=
+  match prog with
+  | [] => True
+  | s :: r => step_within env s /\ forall env1, fstep_run env s = Some env1 -> prog_within env1 r
+  end.
+
+Lemma frac_zero_inv : frac_inv frac_zero.
+Proof. apply frac_inv_simple. reflexivity. Qed.
+
+Lemma Forall_nth_error {A} (P : A -> Prop) l : Forall P l -> forall i x, nth_error l i = Some x -> P x.
+Proof. intros H i x Hi. rewrite Forall_forall in H. apply H. eapply nth_error_In; eauto. Qed.
+
+Lemma step_inv env s f :
+  Forall frac_inv env -> step_within env s -> fstep_new env s = Some (Some f) -> frac_inv f.
+Proof.
+  intros Henv Hw H. pose proof (Forall_nth_error _ _ Henv) as Hnth.
+  destruct s as [t|n d td|i j|i k|k i|l|]; simpl in H, Hw.
+  - unfold parse_frac in H. destruct (parse_simple t) as [g|] eqn:E.
+    + injection H as <-. apply frac_inv_simple. eapply parse_simple_plain; eauto.
+    + destruct (split_on "+" t) as [|a [|b parts]] eqn:Es; try discriminate.
+      destruct (map_opt parse_simple (a :: b :: parts)) as [ps|] eqn:Em; [|discriminate].
+      injection H as <-. unfold frac_sum. apply fold_inv.
+      * apply frac_zero_inv.
+      * eapply map_opt_Forall; [|exact Em]. intros x y Hx. apply frac_inv_simple. eapply parse_simple_plain; eauto.
+      * apply Hw; auto.
+  - injection H as <-. apply frac_inv_simple. apply fcomps_mk_frac.
+  - destruct (nth_error env i) as [f1|] eqn:E1; [|discriminate].
+    destruct (nth_error env j) as [f2|] eqn:E2; [|discriminate]. injection H as <-.
+    apply frac_inv_add_lemma; eauto.
+  - destruct (nth_error env i) as [f1|] eqn:E1; [|discriminate]. injection H as <-.
+    apply frac_inv_add_lemma; eauto. apply frac_inv_simple. apply fcomps_mk_frac.
+  - destruct (nth_error env i) as [f1|] eqn:E1; [|discriminate]. injection H as <-.
+    apply frac_inv_add_lemma; eauto. apply frac_inv_simple. apply fcomps_mk_frac.
+  - destruct (map_opt (nth_error env) l) as [fs|] eqn:Em; [|discriminate].
+    assert (Hfs : Forall frac_inv fs).
+    { eapply map_opt_Forall; [|exact Em]. intros x y Hx. eapply Hnth; eauto. }
+    destruct fs as [|x r]; [discriminate|]. simpl in H. injection H as <-.
+    inversion Hfs as [|? ? Hx Hr]; subst. destruct (Hw x r eq_refl) as [Hw1 Hw2].
+    apply fold_inv; auto. apply frac_inv_add_lemma; auto. apply frac_zero_inv.
+  - discriminate.
+Qed.
+
+(* every object a program creates, as long as its additions stay within the bound, stands for the
+   sum of the components it prints -- hence (frac_text_value_rt) keeps its value through its text *)
+Theorem prog_inv_lemma prog : forall env env',
+  Forall frac_inv env -> prog_within env prog -> prog_run env prog = Some env' -> Forall frac_inv env'.
+Proof.
+  induction prog as [|s prog IH]; intros env env' Henv Hw H; simpl in H.
+  - injection H as <-. exact Henv.
+  - destruct Hw as [Hs Hr]. destruct (fstep_run env s) as [env1|] eqn:E; [|discriminate].
+    apply (IH env1 env'); auto.
+    unfold fstep_run in E. destruct (fstep_new env s) as [[f|]|] eqn:En; try discriminate; injection E as <-.
+    + apply Forall_app. split; [exact Henv|]. constructor; [|constructor]. eapply step_inv; eauto.
+    + exact Henv.
+Qed.
+
+Example prog_inv_example :
+  prog_within [] [SParse "1/4+1/16"; SNew 1 32 None; SAdd 0 1; SSum [0%nat; 2%nat]].
+Proof.
+  simpl. split.
+  { intros ps _ H. vm_compute in H. injection H as <-. simpl. unfold add_within. repeat split; vm_compute; congruence. }
+  intros env1 H1. vm_compute in H1. injection H1 as <-. split; [exact I|].
+  intros env2 H2. vm_compute in H2. injection H2 as <-. split.
+  { intros f g Hf Hg. vm_compute in Hf, Hg. injection Hf as <-. injection Hg as <-.
+    unfold add_within. repeat split; vm_compute; congruence. }
+  intros env3 H3. vm_compute in H3. injection H3 as <-. split; [|intros; exact I].
+  intros x r H. vm_compute in H. injection H as <- <-. simpl. unfold add_within. repeat split; vm_compute; congruence.
+Qed.
+
 (* C07-K1 in the model: a sum of zero durations has no component left, prints as the empty text,
    and the empty text is not a duration *)
 Theorem frac_zero_sum_text_lemma :
